@@ -117,6 +117,65 @@ def sig_source(s):
     return decl + "    impl%s %s%s {\n        pub fn m<%s>(%s) -> %s { unimplemented!() }\n    }\n" % (ig, s.holder, ig, ", ".join(gens), ", ".join(ps), s.ret)
 
 
+def gen_nested_structs(rng, n=4):
+    """struct definitions whose fields are borrowing structs instantiated with arbitrary (also repeated) lifetimes of the outer struct"""
+    out = []
+    for k in range(n):
+        lts = ["x", "y"] if rng.random() < 0.8 else ["x"]
+        fields = []
+        for i in range(rng.randint(2, 5)):
+            c = rng.random()
+            a, b = rng.choice(lts), rng.choice(lts)
+            if c < 0.25:
+                fields.append(("f%d" % i, "&'%s Op" % a, [("direct", a)]))
+            elif c < 0.45:
+                fields.append(("f%d" % i, "DiplomatSlice<'%s, u8>" % a, [("direct", a)]))
+            elif c < 0.75:
+                fields.append(("f%d" % i, "StL<'%s, '%s>" % (a, b), [("p", a), ("q", b)]))
+            elif c < 0.9:
+                fields.append(("f%d" % i, "StB<'%s, '%s>" % (a, a), [("p", a), ("q", a)]))
+            else:
+                fields.append(("f%d" % i, "u16", []))
+        if not any(l == lt for _, _, uses in fields for _, l in uses for lt in lts[:1]):
+            fields.append(("fz", "&'%s Op" % lts[0], [("direct", lts[0])]))
+        if len(lts) == 2 and not any(l == "y" for _, _, uses in fields for _, l in uses):
+            fields.append(("fy", "StL<'y, 'y>", [("p", "y"), ("q", "y")]))
+        out.append(("N%d" % k, lts, fields))
+    return out
+
+
+def nested_source(nested):
+    return "".join("    pub struct %s<%s> { %s }\n" % (name, ", ".join("'" + l for l in lts), ", ".join("pub %s: %s" % (fn, ty) for fn, ty, _ in fields)) for name, lts, fields in nested)
+
+
+def nested_expected(fields, lt):
+    es = set()
+    for fn, ty, uses in fields:
+        for kind, l in uses:
+            if l == lt:
+                es.add((fn, kind))
+    return es
+
+
+def parse_struct_getters(b, text):
+    out = {}
+    if b == "js":
+        pairs = re.findall(r"get _fieldsForLifetime(\w)\(\) \{\s*return \[(.*?)\];", text, re.S)
+    else:
+        pairs = re.findall(r"get _fieldsForLifetime(\w) => \[(.*?)\];", text, re.S)
+    for lt, body in pairs:
+        es = set()
+        for tok in [t.strip() for t in body.split(",") if t.strip()]:
+            tok = tok.replace("this.#", "")
+            m = re.match(r"\.\.\.(\w+)\._fieldsForLifetime(\w)$", tok)
+            if m:
+                es.add((m.group(1), m.group(2).lower()))
+            else:
+                es.add((tok, "direct"))
+        out[lt.lower()] = es
+    return out
+
+
 def longer_than(s, lt):
     """all lifetimes forced to outlive `lt` (reflexive, transitive) under declared + implied bounds"""
     edges = s.bounds | s.implied
@@ -237,18 +296,19 @@ def main(tier, seed):
     common.build_tool()
     hd = common.cargo_build_crate(common.instantiate_crate("hirdump"), "stable", bin_name="hirdump")
     stats = {"signatures": 0, "output_lifetimes": 0, "edges_expected": 0, "backend_edge_lists_checked": 0, "rustc_probe_pairs": 0, "rustc_model_disagreements": 0,
-             "rejected_by_gate": 0}
+             "rejected_by_gate": 0, "struct_getters_checked": 0}
     shapes = set()
 
     def one(bi):
         rng = random.Random("c04/%s/%s" % (seed, bi))
         sigs = [gen_sig(rng, k) for k in range(per)]
+        nested = gen_nested_structs(rng)
         d = toolrun.fresh_dir(toolrun.workdir("c04", "b%d" % bi))
         res = {"viol": [], "inconc": [], "st": dict.fromkeys(stats, 0), "shapes": set()}
         src = os.path.join(d, "lib.rs")
         # the gate may reject a signature (a bound we did not anticipate): drop those, they are C05's business
         for attempt in range(6):
-            open(src, "w").write(PRELUDE + "".join(sig_source(s) for s in sigs) + "}\n")
+            open(src, "w").write(PRELUDE + nested_source(nested) + "".join(sig_source(s) for s in sigs) + "}\n")
             rc, o, e = run([hd, src], timeout=120)
             bad = set(re.findall(r"LOWERING-ERROR (\w+)::m", o))
             if rc != 0:
@@ -323,6 +383,16 @@ def main(tier, seed):
             if kind != "ok":
                 res["inconc"].append("%s: tool %s: %s" % (b, kind, str(det)[:160]))
                 continue
+            if b in ("js", "dart"):
+                for name, lts, fields in nested:
+                    fpath = os.path.join(out, name + (".mjs" if b == "js" else ".g.dart"))
+                    got = parse_struct_getters(b, open(fpath).read()) if os.path.exists(fpath) else {}
+                    for lt in lts:
+                        res["st"]["struct_getters_checked"] += 1
+                        exp = nested_expected(fields, lt)
+                        if not exp <= got.get(lt, set()):
+                            res["viol"].append((None, "%s: struct `%s<%s> { %s }`: _fieldsForLifetime%s yields %s, fields borrowing '%s are %s (missing %s)" % (
+                                b, name, ", ".join("'" + l for l in lts), ", ".join("%s: %s" % (fn, ty) for fn, ty, _ in fields), lt.upper(), sorted(got.get(lt, set())), lt, sorted(exp), sorted(exp - got.get(lt, set())))))
             nbtxt = open(os.path.join(out, "vflib_ext.cpp")).read() if b == "nanobind" else None
             for s in sigs:
                 exp = expected_edges(s)
@@ -372,11 +442,13 @@ def main(tier, seed):
         shapes |= r["shapes"]
         for m in r["inconc"]:
             chk.inconc("batch %d: %s" % (bi, m))
-        for s, msg in r["viol"][:4]:
+        for s, msg in [v for v in r["viol"] if v[0] is None][:3]:
+            chk.violation("b%d_struct" % bi, msg, {"dir": toolrun.workdir("c04", "b%d" % bi)})
+        for s, msg in [v for v in r["viol"] if v[0] is not None][:4]:
             chk.violation("b%d_%s" % (bi, s.holder), "`%s`: %s" % (sig_source(s).strip().splitlines()[-2].strip(), msg),
                           {"signature": sig_source(s), "declared_bounds": sorted(s.bounds), "implied_bounds": sorted(s.implied), "expected": {k: sorted(v) for k, v in expected_edges(s).items()},
                            "dir": toolrun.workdir("c04", "b%d" % bi)})
-    chk.evaluations = stats["output_lifetimes"] + stats["backend_edge_lists_checked"] + stats["rustc_probe_pairs"]
+    chk.evaluations = stats["struct_getters_checked"] + stats["output_lifetimes"] + stats["backend_edge_lists_checked"] + stats["rustc_probe_pairs"]
     chk.distinct = shapes
     chk.rule = ("seeded method signatures over <= 4 method lifetimes (+ an impl lifetime on the receiver in a quarter of them) with random declared bounds, parameters "
                 "&'x Op / &'x OpL<'y,'z> / OpB with a definition-site bound / StL<'x,'y> / StB / slices / anonymous lifetimes, returns over references, boxed "
